@@ -144,6 +144,13 @@ structure HardRel (r' r : Result σ) : Prop where
 
 theorem HardRel.refl (r : Result σ) : HardRel r r := ⟨rfl, rfl, rfl, StAgree.refl _, Or.inl rfl⟩
 
+/-- the notice is not a `full` line: the completed-iteration lines of the two runs coincide. -/
+theorem HardRel.full_lines {r' r : Result σ} (h : HardRel r' r) :
+    (r'.out.filter (·.full)).map Info.blankTime = (r.out.filter (·.full)).map Info.blankTime := by
+  rcases h.out with e | ⟨d, e⟩
+  · rw [e]
+  · rw [e, List.filter_cons_of_neg (by simp [notice])]
+
 theorem ponderPoll_false (L : Limits) (k : Nat) : ponderPoll L false k = (false, k) := by
   simp [ponderPoll]
 
